@@ -3,7 +3,7 @@ CONSTANTS
   UpgradeStrong = TRUE
   VerifyQuorum = TRUE
   RecheckTerm = TRUE
-  OneCluster = TRUE
+  OneCluster = FALSE
 CONSTRAINT HW
 POSTCONDITION Accepted
 CHECK_DEADLOCK FALSE
